@@ -54,7 +54,7 @@ EXTRA = {
 # source tie (DESIGN 16), appended to the level text
 SRC_TIE = {
  "C01": "cvss3.py's WHOLE constructor (parse_vector, check_mandatory, handle_scope, add_missing_optional, get_value, compute_*) and its accessors (clean_vector, severities, sub-vectors, as_json) are re-translated from the source text on every run (tools/gen_code.py -> Gen/Code3) and CodeTie3.construct_eq / init_tail_eq etc. re-prove model = translated source for every string / metric dict; CodeTie3Final composes them with this property's theorems (source_v3_scores_eq_spec: the translated source computes the FIRST equations); the translation is executed against CPython on ~13,000 inputs per run (exact Decimal values, exception classes).",
- "C02": "cvss4.py's constructor (parse_vector, check_mandatory, add_missing_optional, m(), macroVector(), compute_base_score with its tables, compute_severity) and accessors are re-translated from the source text on every run (Gen/Code4); CodeTie4 re-proves model = translated source for the parser, m / macroVector, the level tables, compute_severity, clean_vector, as_json (the evidence file lists the theorems in force); the WHOLE translated constructor incl. compute_base_score (binary floats as exact rationals, NaN modelled) is executed against CPython on ~17,000 inputs per run.",
+ "C02": "cvss4.py's WHOLE constructor (parse_vector, check_mandatory, add_missing_optional, m(), macroVector(), the 350-line compute_base_score, final_rounding, compute_severity) and its accessors are re-translated from the source text on every run (Gen/Code4; binary floats as exact rationals, NaN modelled); CodeTie4.compute_base_score_eq re-proves translated scoring = model baseScore for EVERY metric dict, CodeTie4Ctor.construct_eq the whole constructor for every string, CodeTie4Final composes them with the grammar theorems; the translated constructor is executed against CPython on ~17,000 inputs per run (8,700 scored vectors).",
  "C03": "cvss2.py's WHOLE constructor and its accessors are re-translated from the source text on every run (Gen/Code2) and CodeTie2.construct_eq / init_tail_eq etc. re-prove model = translated source for every string / metric dict; CodeTie2Final: source_v2_scores_eq_spec (the translated source computes the guide's equations); executed against CPython on ~11,000 inputs per run.",
  "C04": 'the constructors and accessor methods this property leans on are re-translated from the source text of cvss2/3/4.py on every run and CodeTie2/3/4 (+Final) re-prove model = translated source (construct_eq: same exception class or same object for EVERY string); the translation is executed against CPython every run. CodeTie{2,3}Final: source_v{2,3}_construct_accepts_iff / _outcomes / _mandatory_iff - the translated constructor succeeds exactly on the grammar and otherwise raises the malformed or the mandatory class.',
  "C05": 'the constructors and accessor methods this property leans on are re-translated from the source text of cvss2/3/4.py on every run and CodeTie2/3/4 (+Final) re-prove model = translated source (construct_eq: same exception class or same object for EVERY string); the translation is executed against CPython every run.',
